@@ -40,7 +40,7 @@ def generate(rng):
     if prim["kind"] == "TapePrimary":
         prim["params"]["style"] = "lognormal"
     pkind = prim["kind"]
-    d = gen_derivative(rng, "d0", prim, kinds=OPTION_KINDS + ["VarianceSwap", "EuropeanForwardStartOption"], steps=rng.choice([2, 3, 4, 6]))
+    d = gen_derivative(rng, "d0", prim, kinds=OPTION_KINDS + ["VarianceSwap", "EuropeanForwardStartOption"], steps=(rng.choice([140, 200]) if rng.chance(0.06) else rng.choice([2, 3, 4, 6, 6, 12, 25])))
     derivs = [d]
     hedge, H = None, 1
     if rng.chance(0.35):
@@ -52,8 +52,12 @@ def generate(rng):
     crit = gen_criterion(rng, "c0", [ck])
     if ck == "IsoelasticLoss":
         d.setdefault("clauses", []).append({"name": "keep_pl_positive", "kind": "shift", "v": -5.0})
-    m, h = gen_hedger(rng, "h0", "m0", d, pkind, H=H, listed=False, kinds=["linear", "mlp", "mlp", "sin", "pf_mlp"],
-                      state=rng.chance(0.6), crit="c0", smooth=True)
+    # over more than a handful of steps a recurrent sin(w x) model is chaotic in its parameters (gradients of 1e5 ... 1e13, no
+    # difference quotient at any usable h): long horizons use the contractive model kinds, where finite differences exist
+    long_h = d["_k"] > 6
+    m, h = gen_hedger(rng, "h0", "m0", d, pkind, H=H, listed=False,
+                      kinds=(["linear", "mlp", "mlp"] if long_h else ["linear", "mlp", "mlp", "sin", "pf_mlp"]),
+                      state=(rng.chance(0.8) if long_h else rng.chance(0.6)), crit="c0", smooth=True)
     m["dtype"] = "float64"
     world = {"primaries": [prim], "derivatives": derivs, "models": [m], "criteria": [crit], "hedgers": [h]}
     n = rng.choice([2, 3, 5, 8])
